@@ -12,7 +12,7 @@ use crate::refs::wrap::GzFields;
 pub const INFO: CheckInfo = CheckInfo {
     prop: "C16",
     level: "model_checking",
-    rule: "explicit enumeration of ALL programs up to a depth over the exported entry points with small argument domains, executed in lock-step on libz-rs-sys and on zlib-ng 2.3.3 (R6): compression side = C06's 47-operation alphabet incl. illegal init parameters (level -2/10, method 7, windowBits 7/16/32/47, memLevel 0/10, strategy 5/-1) and deflatePrime at any point; decompression side = {inflate (5 flush values x {all input, 1 byte, none} x {ample, 1, 0 bytes of room}), inflatePrime ((0,0),(3,5),(16,0x1234),(16,-1),(17,0),(-1,0)), inflateSync, inflateSyncPoint, inflateValidate(0/1), inflateUndermine(1/-1), inflateResetKeep, inflateReset, inflateReset2 (-15,31,47,7,0), inflateGetHeader, inflateSetDictionary (right/wrong), inflateGetDictionary, inflateCopy (continue on copy / end copy), inflateCodesUsed, inflateEnd} after inflateInit2 over {15,-15,31,47,0,-8,8,7,16,48,-16} on five data sets (valid zlib, valid gzip with header fields, raw, corrupt, zlib with FDICT, empty); one-shot helpers compress/compress2/uncompress/uncompress2 on size lattices; NULL stream / NULL buffer arguments where zlib defines the result. After every call: same return code, same input consumed, same output bytes produced; the process must never terminate. zlib-ng is run first in a forked child (pre-screen): programs on which the reference itself crashes are counted as skipped_ng_ub. Family params-rooms: deflateInit2 (10 levels x 5 strategies) ; deflate (5 sizes, no flush / sync flush) ; deflateParams (6 new settings) with 12 output rooms (0..=9, 64, ample) x {0, 5} new input bytes ; deflate(Z_FINISH), every call compared. Family tune-matrix: deflateTune with 26 C-int values (INT_MIN..INT_MAX) for each parameter and for all four x 9 levels x 2 strategies, then one deflate(Z_FINISH): statuses and compressed bytes. Family validate-values: inflateValidate with 11 C-int values before the first call / after 1, 2, 12, 40 bytes, on intact streams and streams with a wrong check value. Not compared (as the property lists): totals after a dictionary request, inflateMark, dictionary length, message texts, inflateUndermine's own status, deflatePending/deflateBound values.",
+    rule: "explicit enumeration of ALL programs up to a depth over the exported entry points with small argument domains, executed in lock-step on libz-rs-sys and on zlib-ng 2.3.3 (R6): compression side = C06's 47-operation alphabet incl. illegal init parameters (level -2/10, method 7, windowBits 7/16/32/47, memLevel 0/10, strategy 5/-1) and deflatePrime at any point; decompression side = {inflate (5 flush values x {all input, 1 byte, none} x {ample, 1, 0 bytes of room}), inflatePrime ((0,0),(3,5),(16,0x1234),(16,-1),(17,0),(-1,0)), inflateSync, inflateSyncPoint, inflateValidate(0/1), inflateUndermine(1/-1), inflateResetKeep, inflateReset, inflateReset2 (-15,31,47,7,0), inflateGetHeader, inflateSetDictionary (right/wrong), inflateGetDictionary, inflateCopy (continue on copy / end copy), inflateCodesUsed, inflateEnd} after inflateInit2 over {15,-15,31,47,0,-8,8,7,16,48,-16} on five data sets (valid zlib, valid gzip with header fields, raw, corrupt, zlib with FDICT, empty); one-shot helpers compress/compress2/uncompress/uncompress2 on size lattices; NULL stream / NULL buffer arguments where zlib defines the result. After every call: same return code, same input consumed, same output bytes produced; the process must never terminate. zlib-ng is run first in a forked child (pre-screen): programs on which the reference itself crashes are counted as skipped_ng_ub. Family params-rooms: deflateInit2 (10 levels x 5 strategies) ; deflate (5 sizes, no flush / sync flush) ; deflateParams (6 new settings) with 12 output rooms (0..=9, 64, ample) x {0, 5} new input bytes ; deflate(Z_FINISH), every call compared. Family tune-matrix: deflateTune with 26 C-int values (INT_MIN..INT_MAX) for each parameter and for all four x 9 levels x 2 strategies, then one deflate(Z_FINISH): statuses and compressed bytes. Family validate-values: inflateValidate with 11 C-int values before the first call / after 1, 2, 12, 40 bytes, on intact streams and streams with a wrong check value. Family prime-on-pending (zlib-rs alone): the pending buffer filled and partly drained in every combination, then deflatePrime repeated until it refuses. Not compared (as the property lists): totals after a dictionary request, inflateMark, dictionary length, message texts, inflateUndermine's own status, deflatePending/deflateBound values.",
     assumptions: &["zlib-ng 2.3.3 in compat mode is the reference", "decoding data whose back-references exceed the window announced to inflateInit2 is excluded (zlib-ng's small window makes its own verdict depend on chunking; zlib-rs always keeps 32 KiB, see C03)", "argument values outside the enumerated domains and deeper programs are not covered"],
     bound_quick: "compression: depth 3 over the full alphabet on 3 configs, depth 2 on 7 + all illegal configs depth 2; decompression: depth 3 over a 30-operation alphabet on 6 data sets x 3 init modes, depth 2 on the rest",
     bound_thorough: "compression depth 3 everywhere / depth 4 reduced alphabet; decompression depth 4 on the reduced alphabet",
@@ -1212,12 +1212,75 @@ fn validate_values(ctx: &mut Ctx) {
     }
 }
 
+/// deflatePrime while output is pending (the reference scrambles its own stream there, see DESIGN 11.3, so zlib-rs runs
+/// alone): the pending buffer filled and partly drained in every combination, then deflatePrime(16, v) repeated until it
+/// refuses - every call answers Z_OK or Z_BUF_ERROR, nothing leaves the buffers, the process is not terminated
+fn prime_on_pending(ctx: &mut Ctx) {
+    let ain = Arena::new(1 << 16);
+    let aout = Arena::new(1 << 16);
+    let data = lcg_bytes(31, 9000);
+    for level in [0, 1, 6, 9] {
+        for ml in [1, 2, 8] {
+            for n in [0usize, 100, 507, 600, 5000] {
+                for room1 in [0usize, 1, 5, 300] {
+                    for room2 in [usize::MAX, 0, 1, 100, 400, 505] {
+                        ctx.case(
+                            "prime-on-pending",
+                            || format!("deflateInit2(level={level}, raw, memLevel={ml}) ; deflate(Z_NO_FLUSH, {n} bytes, room {room1}) ; {} ; deflatePrime(16, 0xABCD) until refused ; deflateEnd", if room2 == usize::MAX { "-".to_string() } else { format!("deflate(Z_NO_FLUSH, no input, room {room2})") }),
+                            |c| unsafe {
+                                c.exec();
+                                let mut s = Strm::guarded(0x4D);
+                                let r = Rs::deflateInit2_(s.p(), level, 8, -15, ml, 0, Rs::zlibVersion(), STREAM_SIZE);
+                                if r != Z_OK {
+                                    return Err(format!("deflateInit2 returned {}", rc_name(r)));
+                                }
+                                let pin = ain.put(&data[..n], true);
+                                s.z.next_in = pin;
+                                s.z.avail_in = n as u32;
+                                s.z.next_out = aout.at_end(room1);
+                                s.z.avail_out = room1 as u32;
+                                let r1 = Rs::deflate(s.p(), Z_NO_FLUSH);
+                                if room2 != usize::MAX {
+                                    s.z.next_out = aout.at_end(room2);
+                                    s.z.avail_out = room2 as u32;
+                                    let _ = Rs::deflate(s.p(), Z_NO_FLUSH);
+                                }
+                                let mut accepted = 0u32;
+                                let mut last = Z_OK;
+                                for _ in 0..100_000 {
+                                    last = Rs::deflatePrime(s.p(), 16, 0xABCD);
+                                    if last != Z_OK {
+                                        break;
+                                    }
+                                    accepted += 1;
+                                }
+                                let e = Rs::deflateEnd(s.p());
+                                if last != Z_BUF_ERROR {
+                                    return Err(format!("deflatePrime answered {} after {accepted} accepted calls (Z_BUF_ERROR is the documented refusal)", rc_name(last)));
+                                }
+                                if e != Z_OK && e != Z_DATA_ERROR {
+                                    return Err(format!("deflateEnd returned {}", rc_name(e)));
+                                }
+                                c.outcome(mix(accepted as u64, r1 as u64));
+                                c.nontrivial();
+                                c.validated();
+                                Ok(())
+                            },
+                        );
+                    }
+                }
+            }
+        }
+    }
+}
+
 pub fn run(ctx: &mut Ctx) {
     let env = OpEnv::new();
     init_matrix(ctx);
     params_rooms(ctx);
     tune_matrix(ctx);
     validate_values(ctx);
+    prime_on_pending(ctx);
     deflate_side(ctx, &env);
     inflate_side(ctx);
     one_shots(ctx);
